@@ -222,13 +222,15 @@ func expandTaggedUnionForBounds(tpe ast.BaseTerm) (ast.ApplyFn, error) {
 // IsListTypeExpression returns true if tpe is a ListType.
 func IsListTypeExpression(tpe ast.BaseTerm) bool {
 	op := typeOp(tpe)
-	return op != nil && *op == ListType
+	// Compare by name: the .List<...> syntax parses with arity -1, fn:List(...) with arity 1.
+	return op != nil && op.Symbol == ListType.Symbol
 }
 
 // IsMapTypeExpression returns true if tpe is a MapType.
 func IsMapTypeExpression(tpe ast.BaseTerm) bool {
 	op := typeOp(tpe)
-	return op != nil && *op == MapType
+	// Compare by name: the .Map<...> syntax parses with arity -1, fn:Map(...) with arity 2.
+	return op != nil && op.Symbol == MapType.Symbol
 }
 
 // IsStructTypeExpression returns true if tpe is a StructType.
